@@ -1,10 +1,9 @@
 import CDVProofs.ReadSame
 import CDVProofs.NormSpec
 import CDVProofs.Props.C03Full
+import CDVProofs.AddLineSome
 /-! # CPython reads `from_code(c).to_code()` exactly as it reads `c` — instructions, operands and lines -/
 namespace CDV
-
-def CodeData.addLine : CodeData → Option AdditionalLine | .mk _ _ _ _ _ _ _ _ _ al _ => al
 
 theorem kindOK_of_operandOK_raw (v : Ver) (T : OpTable) (names varnames fv cellvars : List PStr) (constants : List Const) (r : RawI) (ins : Instr)
     (hop : ins.op = r.op) (h : OperandOK v T names varnames fv cellvars constants r ins.arg) (hext : T.get r.op ≠ .ext) (targets : List Nat) :
@@ -53,9 +52,10 @@ theorem decoded_reads_identically_full (v : Ver) (T : OpTable) (F : FlagTable) (
     (hrne : Spec.read v T (.mk argc pos kw nl ss fl fln code lt fname name names varnames freevars cellvars consts) ≠ [])
     (hfit : ∀ args0 args fuel, relax v d.blocks.flatten (blockStarts d.blocks 0) fuel args0 = .ok args →
       ∀ p ∈ d.blocks.flatten.zip args, Encodable p.1 p.2)
-    (hal : v.is310 = false → ∀ a, d.addLine = some a → a.line.isSome)
     (henc : fromCodeDataGo v F enc d = .ok c') :
     Spec.read v T c' = Spec.read v T (.mk argc pos kw nl ss fl fln code lt fname name names varnames freevars cellvars consts) := by
+  have hal : v.is310 = false → ∀ a, d.addLine = some a → a.line.isSome = true := fun hv =>
+    decoded_addLine_some v T F dec argc pos kw nl ss fl fln code lt fname name names varnames freevars cellvars consts d h hv hteven htbytes (htbcOld hv)
   have hoa := decoded_reads_identically v T F dec enc argc pos kw nl ss fl fln code lt fname name names varnames freevars cellvars consts d c'
     hA h hlen hnodup hpos37 hcode hcomp hpre hmin hjs hcn hfn henc
   obtain ⟨constants, blocks, tp, ann, nested, al, aa, hd, hcm, hlenR, hallR⟩ :=
